@@ -118,7 +118,8 @@ class ArffAttrReader(Filter[Iterable[str], Iterable[Tuple[str,Callable]]]):
                 #there is a bug in ARFF where the first class value in an ARFF class can will dropped from the
                 #actual data because it is encoded as 0. Therefore, our ARFF reader automatically adds a 0 value
                 #to all sparse categorical one-hot encoders to protect against this.
-                categories = ["0"] + categories
+                #a nominal that declares "0" itself keeps the declared order of its other levels
+                categories = ["0"] + [c for c in categories if c != "0"]
 
             return ArffAttrReader.CategoricalDict(CategoricalEncoder(categories)._categoricals).__getitem__
 
